@@ -9,6 +9,7 @@ import Nstd.Future.Progress
 import Nstd.Future.LiveProducer
 import Nstd.Future.LiveAll
 import Nstd.Future.LiveReduce
+import Nstd.Future.LiveSpawn
 import Nstd.Future.Handshake
 import Nstd.Future.HandshakeWitness
 /-
@@ -191,13 +192,29 @@ theorem terminate_jobs_balance {cfg : Config} {s : State} {p : Pool} (hrep : cfg
     (LS.lsDone s → tsum s.nthreads (LS.lsAt p.ring.pushLog s) = LS.lsTq p.ring.head p.ring.pushLog) :=
   Nstd.Future.terminate_jobs_balance hrep h hp
 
-/-- UNCONDITIONAL deadlock freedom of the repaired system relative to the one remaining statement `QueuedJobServed`
-    ("a queued job with no live worker ⇒ somebody can step", i.e. the spawn arithmetic of `ThreadPool::run`): every state
-    without an enabled thread and with a live thread reduces to it.  (`_partial`: the hypothesis `hS` is OPEN.) -/
-theorem no_stuck_partial {cfg : Config} {s : State} (hrep : cfg.repaired = true) (hwf : cfg.WellFormed)
-    (hS : QueuedJobServed cfg) (h : Reach cfg s) (hl : ∃ t th, s.threads t = some th ∧ th.finished = false) :
-    ∃ t, enabled s t = true :=
-  no_stuck_of_queuedJobServed hrep hwf hS h hl
+/-- The pool always has or creates a worker for a queued job: a job is queued and no worker thread is alive ⇒ some thread
+    can take a step (spawn arithmetic of `ThreadPool::run` over `_pushedJobs`, `_processedJobs`, `_threadCount` with their
+    stale reads, together with the FIFO order of the ring). -/
+theorem queued_job_served {cfg : Config} {s : State} (hrep : cfg.repaired = true) (hwf : cfg.WellFormed)
+    (h : Reach cfg s) (hq : jobQueued s) (hnw : ∀ w, ¬ liveWorker s w) : ∃ t, enabled s t = true :=
+  Nstd.Future.queued_job_served hrep hwf s h hq hnw
+
+/-- Counter identity of the pool: `_pushedJobs` + pushers not yet counted = `_processedJobs` + jobs taken but not yet
+    counted + real jobs queued. -/
+theorem counters_identity {cfg : Config} {s : State} {p : Pool} (hrep : cfg.repaired = true) (h : Reach cfg s)
+    (hp : s.pool = some p) :
+    p.pushed + tsum s.nthreads (SP.spAAt s)
+      = p.processed + tsum s.nthreads (SP.spXAt p.ring.pushLog s) + SP.spR p.ring.head p.ring.pushLog :=
+  Nstd.Future.counters_identity hrep h hp
+
+/-- DEADLOCK FREEDOM of the repaired system (`no_stuck`, unconditional): in every reachable state — every schedule, any
+    number of client threads, workers and futures, any queue capacity and thread limits, each future used by one client —
+    in which some thread has not finished, some thread can take a step.  In particular no `join()`, no `Future::start`, no
+    destructor is ever blocked forever by the pool: whenever a thread waits, another one can move.
+    Composition of the worker / producer / join / shutdown sides, the spawn arithmetic and the Signal-layer progress. -/
+theorem no_stuck {cfg : Config} {s : State} (hrep : cfg.repaired = true) (hwf : cfg.WellFormed) (h : Reach cfg s)
+    (hl : ∃ t th, s.threads t = some th ∧ th.finished = false) : ∃ t, enabled s t = true :=
+  Nstd.Future.no_stuck hrep hwf h hl
 
 /-- Mutual exclusion and progress of the simulated Signal layer inside the full model (both code variants): the two
     pool signals' mutexes are exclusive; a thread blocked on any Signal mutex has an owner that can step; a thread
@@ -295,24 +312,19 @@ OPEN: join_eventually   (liveness under weak fairness, full model of the repaire
       ∀ n t f, topFrame (run n) t = some (.join f) → ∃ m ≥ n, topFrame (run m) t ≠ some (.join f)
          -- (more precisely: the thread has left join(): the frame below `join f` is on top)
 
-  and the unconditional deadlock-freedom core
-  theorem no_stuck (hrep : cfg.repaired = true) (hwf : cfg.WellFormed) (h : Reach cfg s)
-      (hl : ∃ t th, s.threads t = some th ∧ th.finished = false) : ∃ t, enabled s t = true
-
-  PROVED of it (this file, full model, every schedule, any number of threads, any capacity):
-    `no_stuck_while_a_worker_lives` — `no_stuck` in every state in which some worker thread is alive — composed of
-    `no_stuck_worker_side`, `no_stuck_producer_side`, `no_stuck_join_side`, `no_stuck_shutdown_side`,
-    `signal_layer_progress`, `deadlock_shape`; `started_call_is_never_lost` (token conservation).
-  MISSING for `no_stuck`: exactly `QueuedJobServed cfg` (see `no_stuck_partial`): "a job is queued, no worker is alive ⇒
-    some thread is enabled".  It needs the spawn arithmetic of `ThreadPool::run` over `_pushedJobs`, `_processedJobs`,
-    `_threadCount` with their stale reads together with the FIFO order of the ring (a queued call is ahead of the
-    terminate jobs of later retire decisions); the terminate-job balance it also needs is proved (`terminate_jobs_balance`).
-  MISSING for `join_eventually` beyond `no_stuck`: a ranking argument under weak fairness (the CAS retry loops and the
-    spin lock of the lazily created pool are lock-free, not wait-free) and that the body and the clients' scripts are
-    finite (they are, in the model).
-  Evidence that is NOT a proof: no deadlock in any controlled-scheduler run of the real code, none in the exhaustive
-  micro-step exploration of the model for the small configurations listed in the evidence file, none in the random
-  micro-step walks of the model (3-4 clients, retire clock); negation witnesses for the ORIGINAL code are theorems above.
+  PROVED of it (this file, full model, every schedule, any number of threads, any capacity): its deadlock-freedom core
+    `no_stuck` (unconditional: whenever some thread is unfinished, some thread can step), with `no_stuck_worker_side`,
+    `no_stuck_producer_side`, `no_stuck_join_side`, `no_stuck_shutdown_side`, `queued_job_served`,
+    `no_stuck_while_a_worker_lives`, `signal_layer_progress`, `deadlock_shape`, `started_call_is_never_lost`,
+    `terminate_jobs_balance`, `counters_identity`; and the safety half (`join_after_completion`: when join returns the
+    call has run exactly once).
+  MISSING for `join_eventually`: a ranking argument under weak fairness on top of `no_stuck` — the CAS retry loops of
+    push/pop and the spin lock of the lazily created pool are lock-free, not wait-free, and the back-pressure / idle loops
+    re-check; one needs a well-founded measure showing that every fair run reaches the end of the (finite) client
+    scripts.  Not attempted.
+  Evidence that is NOT a proof: every controlled-scheduler run of the real code ends (`DONE`, no step bound hit under the
+  fair random policy), as do all random micro-step walks of the model; negation witnesses for the ORIGINAL code are
+  theorems above.
 -/
 
 end Nstd.Future.C10
